@@ -2366,7 +2366,7 @@ func runScenario(s *Scenario, kind string, quiet time.Duration) *runOut {
 	}
 	shutdownOK := env.Close()
 	if !shutdownOK {
-		out.findings = append(out.findings, finding{0, classOf(s, s.Conns[0][0]), "proxy_shutdown_hang", "proxy.Close() did not return within 20 s after all client connections were closed"})
+		out.findings = append(out.findings, finding{0, classOf(s, s.Conns[0][0]), "proxy_shutdown_hang", "proxy.Close() did not return within 60 s after all client connections were closed"})
 	}
 	checkOrigin(s, originLog, originErrs, out, sent, reached)
 	sort.Strings(out.outcome)
@@ -2538,7 +2538,7 @@ func main() {
 	rep.Assumptions = []string{
 		"in-memory connections model TCP (bounded buffers, EOF after buffered bytes, EPIPE on write to a closed peer); a deterministic subset of scenarios is re-run over loopback TCP and any difference in outcome is reported as a harness problem (coverage.mem_tcp_disagreements)",
 		"framing headers (Content-Length, Transfer-Encoding) and RFC 7230 6.1 hop-by-hop headers are not compared; bodies are compared after de-framing; header names are compared case-insensitively; headers added by the proxy/transport are allowed; announced request trailer fields must reach the origin with their values",
-		"a stalled exchange is recognised structurally (proxy and client both blocked in Read on the same connection with nothing in flight), confirmed over 3 polls; the hang deadline is 20 s",
+		"a stalled exchange is recognised structurally (proxy and client both blocked in Read on the same connection with nothing in flight), confirmed over 3 polls; the hang deadline is 60 s",
 		"goroutine schedules inside net/http's Transport are not enumerated (free-running)",
 	}
 	if judged := rep.Counter("conn_age_runs_judged"); rep.Incomplete == "" && judged*2 < int64(fams["L_upstream_conn_age"]) {
